@@ -419,9 +419,22 @@ func (hs *clientHandshakeStateTLS13) processHelloRetryRequest() error {
 	// and utlsExtensionPadding are supposed to change
 	if hs.uconn != nil {
 		if hs.uconn.ClientHelloID != HelloGolang {
+			// The pre_shared_key extension stays as it is (same identity, same length); only
+			// its binder has to be recomputed over the new transcript once the second
+			// ClientHello is marshaled.
+			var pskExt *UtlsPreSharedKeyExtension
 			if len(hs.hello.pskIdentities) > 0 {
-				// TODO: wait for someone who cares about PSK to implement
-				return errors.New("uTLS does not support reprocessing of PSK key triggered by HelloRetryRequest")
+				for _, ext := range hs.uconn.Extensions {
+					if e, ok := ext.(*UtlsPreSharedKeyExtension); ok {
+						pskExt = e
+					}
+				}
+				if pskExt == nil || hs.echContext != nil || len(pskExt.Identities) != len(hs.hello.pskIdentities) {
+					return errors.New("uTLS does not support reprocessing of PSK key triggered by HelloRetryRequest")
+				}
+				for i := range pskExt.Identities {
+					pskExt.Identities[i].ObfuscatedTicketAge = hs.hello.pskIdentities[i].obfuscatedTicketAge
+				}
 			}
 
 			keyShareExtFound := false
@@ -471,6 +484,24 @@ func (hs *clientHandshakeStateTLS13) processHelloRetryRequest() error {
 				return err
 			}
 			hs.hello.original = hs.uconn.HandshakeState.Hello.Raw
+			if pskExt != nil {
+				// binder over ClientHello1 hash, HelloRetryRequest and the truncated
+				// second ClientHello (RFC 8446, Section 4.2.11.2)
+				transcript := hs.suite.hash.New()
+				transcript.Write([]byte{typeMessageHash, 0, 0, uint8(len(chHash))})
+				transcript.Write(chHash)
+				if err := transcriptMsg(hs.serverHello, transcript); err != nil {
+					return err
+				}
+				if err := computeAndUpdatePSK(hs.hello, hs.binderKey, transcript, hs.suite.finishedHash); err != nil {
+					return err
+				}
+				pskExt.Binders = hs.hello.pskBinders
+				if err := hs.uconn.MarshalClientHelloNoECH(); err != nil {
+					return err
+				}
+				hs.hello.original = hs.uconn.HandshakeState.Hello.Raw
+			}
 		}
 	}
 	// [uTLS SECTION ENDS]
